@@ -22,6 +22,9 @@ struct Pair {
     mask: u32,
     cont: usize,
     is_child: bool,
+    /// identity of the plain context value this object was built with (known for directly created
+    /// objects only; clones, children and cast results carry values made elsewhere)
+    plain_serial: Option<u64>,
 }
 
 struct State {
@@ -39,7 +42,7 @@ struct State {
     layout_disagreement: Option<String>,
 }
 
-const BORROWED_RETURNS: [&str; 4] = ["c_ref", "c_mut", "c_group_ref", "c_group_mut"];
+const BORROWED_RETURNS: [&str; 5] = ["c_ref", "c_mut", "c_group_ref", "c_group_mut", "c_nest"];
 const N_FAMILIES: usize = factory::N_SINGLE + 5;
 
 fn fam(name: &str) -> i64 {
@@ -89,11 +92,13 @@ fn create_pair(st: &mut State, family: usize, mask: u32, cont: usize, ctxsel: us
             let cx = Cx { world: &st.world, side: TWIN, seed, ctxsel: 3, arc_ctx: None, erased_arena: &st.erased_arena, twin_arena: &st.twin_arena };
             if family_host < factory::N_SINGLE { factory::create_single(family_host, 0, &cx) } else { create_group(family_host - factory::N_SINGLE, mask, 0, &cx) }
         }?;
-        return Some(Pair { a, b: b.obj, ctxsel: 3, family: family_host, mask, cont: 0, is_child: false });
+        return Some(Pair { a, b: b.obj, ctxsel: 3, family: family_host, mask, cont: 0, is_child: false, plain_serial: None });
     }
+    st.world.plain_last_new.store(0, Ordering::SeqCst);
     let a = mk(ERASED, st)?;
+    let serial = st.world.plain_last_new.swap(0, Ordering::SeqCst);
     let b = mk(TWIN, st)?;
-    Some(Pair { a: a.obj, b: b.obj, ctxsel, family, mask, cont, is_child: false })
+    Some(Pair { a: a.obj, b: b.obj, ctxsel, family, mask, cont, is_child: false, plain_serial: if ctxsel == 2 && serial != 0 { Some(serial) } else { None } })
 }
 
 fn is_arc(ctxsel: usize) -> bool {
@@ -166,6 +171,10 @@ fn check_world(st: &mut State, when: &str, la: &[Entry]) -> VResult {
     } else if holders_arc > 0 {
         vcheck!(unloads == 0, "ctx.released_early", "unload", "{}: the context was released while {} holder(s) exist", when, holders_arc);
     }
+    {
+        let dead = w.plain_dead_use.lock().unwrap();
+        vcheck!(dead.is_empty(), "ctx.used_after_release", "plain", "{}: {} (a bitwise copy of a context value outlived the value it was copied from)", when, dead.join("; "));
+    }
     let plain = w.plain_live.load(Ordering::SeqCst);
     if plain < holders_plain || plain > holders_plain + st.leaked_plain {
         let class = if plain < holders_plain { "ctx.released_early" } else { "ctx.count_excess" };
@@ -216,7 +225,7 @@ fn adopt_children(st: &mut State, parent_ctx: usize, ra: &mut Ret, rb: &mut Ret,
         match free_slot(st, prefer) {
             Some(s) => {
                 let family = if a.n_optional() > 0 { factory::N_SINGLE } else { 0 };
-                st.slots[s] = Some(Pair { a, b, ctxsel: parent_ctx, family, mask: 3, cont: 0, is_child: true });
+                st.slots[s] = Some(Pair { a, b, ctxsel: parent_ctx, family, mask: 3, cont: 0, is_child: true, plain_serial: None });
             }
             None => {
                 track(|| drop(a));
@@ -353,7 +362,7 @@ fn apply(st: &mut State, step: &Step, cell: &mut Option<u64>) -> Result<StepOut,
             match (ca, cb) {
                 (Some(a), Some(b)) => {
                     compare_logs(&la, &lb, "clone")?;
-                    st.slots[d] = Some(Pair { a, b, ctxsel, family, mask, cont, is_child: false });
+                    st.slots[d] = Some(Pair { a, b, ctxsel, family, mask, cont, is_child: false, plain_serial: None });
                     Ok(StepOut { line: format!("Clone {}->{}", s, d), effective: true, counts })
                 }
                 (None, None) => Ok(StepOut { line: "Clone noop(not cloneable)".into(), effective: false, counts }),
@@ -372,7 +381,7 @@ fn apply(st: &mut State, step: &Step, cell: &mut Option<u64>) -> Result<StepOut,
             let requested = 1 + step.arg(2).rem_euclid((1 << nopt) - 1) as u32;
             let mi = step.arg(3).rem_euclid(4096) as usize;
             let args: Vec<i64> = step.a.iter().skip(4).copied().collect();
-            let Pair { a, b, ctxsel, family, mask, cont, is_child } = pair;
+            let Pair { a, b, ctxsel, family, mask, cont, is_child, plain_serial } = pair;
             let kind = a.kind();
             let mut aa = A::new(&args);
             let (na, mut ra) = track(|| a.cast(op, requested, mi, &mut aa));
@@ -387,7 +396,7 @@ fn apply(st: &mut State, step: &Step, cell: &mut Option<u64>) -> Result<StepOut,
             // C08: success iff every requested trait was enabled
             vcheck!(got_ok == expect_ok, "cast.outcome", &what, "{} on a group whose implementor enables {:#b}: {} (expected {})", what, mask, if got_ok { "succeeded" } else { "failed" }, if expect_ok { "success" } else { "failure" });
             match (na, nb) {
-                (Some(a), Some(b)) => st.slots[s] = Some(Pair { a, b, ctxsel, family, mask, cont, is_child }),
+                (Some(a), Some(b)) => st.slots[s] = Some(Pair { a, b, ctxsel, family, mask, cont, is_child, plain_serial }),
                 (None, None) => {}
                 (x, y) => {
                     // keep nothing; report
@@ -424,7 +433,7 @@ fn apply(st: &mut State, step: &Step, cell: &mut Option<u64>) -> Result<StepOut,
             let mi = step.arg(1).rem_euclid(menu.len() as i64) as usize;
             let meth = menu[mi];
             let args: Vec<i64> = step.a.iter().skip(2).copied().collect();
-            let Pair { a, b, ctxsel, .. } = pair;
+            let Pair { a, b, ctxsel, plain_serial, .. } = pair;
             let what = format!("{}::{}", a.kind(), meth.name);
             // is this object the last holder of the context? then the unload happens in this call
             let holders_arc = st.ctx_handle.is_some() as i64 + st.slots.iter().flatten().filter(|p| is_arc(p.ctxsel)).count() as i64 + is_arc(ctxsel) as i64;
@@ -433,8 +442,21 @@ fn apply(st: &mut State, step: &Step, cell: &mut Option<u64>) -> Result<StepOut,
                 w.check_backtrace.store(true, Ordering::SeqCst);
             }
             let mut aa = A::new(&args);
+            w.events.lock().unwrap().clear();
+            w.record_events.store(plain_serial.is_some(), Ordering::SeqCst);
             let mut ra = track(|| a.consume(mi, &mut aa));
+            w.record_events.store(false, Ordering::SeqCst);
             w.check_backtrace.store(false, Ordering::SeqCst);
+            if let Some(serial) = plain_serial {
+                // the object's own context value is the last thing it releases: after its method ran
+                // and after its instance was destroyed (if the call destroys it)
+                let ev = std::mem::take(&mut *w.events.lock().unwrap());
+                if let Some(at) = ev.iter().position(|e| *e == crate::world::Ev::CtxDrop(serial)) {
+                    let later: Vec<String> = ev[at + 1..].iter().filter(|e| !matches!(e, crate::world::Ev::CtxDrop(_))).map(|e| format!("{:?}", e)).collect();
+                    vcheck!(later.is_empty(), "ctx.released_early", &what, "{}: the consumed object's own context value (#{}) was released before {} — the instance still ran or was still alive without it", what, serial, later.join(", "));
+                    counts.push("probe.consume_order_checked".into());
+                }
+            }
             let la = w.take_log(ERASED);
             let mut ab = A::new(&args);
             let mut rb = b.consume(mi, &mut ab);
